@@ -774,7 +774,7 @@ def correspondence(ctx):
         scene.close()
     total += n_vec
     # the link-building functions: model (step lists rendered from the source, callees inlined) vs. implementation
-    n_link = ctx.budget(600, 6000)
+    n_link = ctx.budget(300, 6000)
     lrng = random.Random("%s/link/%d" % (PROP, ctx.seed))
     lcases = []
     while len(lcases) < n_link:
@@ -903,6 +903,42 @@ def _build(f, long=False):
     rl.link_data_array(d1, [-1])
     return dict(dy=dy, sl=sl, rl=rl, fsrc=fsrc, f=f, b=b, b2=b2, da=da, d1=d1, ds=ds, dx=dx, da2=da2, df=df, df2=df2, t=t, mt=mt, g=g, src=src,
                 src2=src2, s=s, s2=s2, pr=pr, ps=ps, pf=pf, ft=ft, sd=sd, rd=rd, sm=sm, long=long)
+
+
+def _fetch(f, long=False):
+    """the dictionary `_build` returns, for a file that already holds the scene (a copy of the template)"""
+    b, b2 = f.blocks["b"], f.blocks["b2"]
+    da, d1, ds, dx, dy = (b.data_arrays[n] for n in ("da", "d1", "ds", "dx", "dy"))
+    t, s = b.tags["tg"], f.sections["s"]
+    src = b.sources["src"]
+    return dict(dy=dy, sl=dy.dimensions[0], rl=dy.dimensions[1], fsrc=b2.sources["zz"], f=f, b=b, b2=b2, da=da, d1=d1, ds=ds,
+                dx=dx, da2=b2.data_arrays["x"], df=b.data_frames["df"], df2=b.data_frames["df2"], t=t, mt=b.multi_tags["mt"],
+                g=b.groups["g"], src=src, src2=src.sources["deep"], s=s, s2=s.sections["sub"], pr=s.props["p"],
+                ps=s.props["ps"], pf=s.props["pf"], ft=t.features[0], sd=da.dimensions[0], rd=da.dimensions[1],
+                sm=d1.dimensions[0], long=long)
+
+
+_TEMPLATES = {}
+
+
+def _scene_file(ctx, path, long=False):
+    """(open file, scene dictionary): the scene of `_build` in a new file at `path`.  The scene is built once per
+    process and kind (short / long) and copied byte for byte afterwards - building it takes five times as long as
+    copying and re-opening."""
+    if long not in _TEMPLATES:
+        tpath = ctx.tmpfile("c12-template-%s.nix" % ("long" if long else "short"))
+        tf = nixio.File.open(tpath, nixio.FileMode.Overwrite)
+        try:
+            _quiet(lambda: _build(tf, long))
+        finally:
+            tf.close()
+        with open(tpath, "rb") as fh:
+            _TEMPLATES[long] = fh.read()
+        os.remove(tpath)
+    with open(path, "wb") as fh:
+        fh.write(_TEMPLATES[long])
+    f = nixio.File.open(path, nixio.FileMode.ReadWrite)
+    return f, _fetch(f, long)
 
 
 def _set(o, a, v):
@@ -1097,6 +1133,22 @@ def _catalogue():
     add("append_range_dimension_using_self:index-fraction",
         lambda c: c["dx"].append_range_dimension_using_self([fractions.Fraction(-1)]),
         lambda c: c["dx"].append_range_dimension_using_self([-1]))
+    add("create_property:name-with-nul", lambda c: c["s"].create_property("q\x00x", [1]),
+        lambda c: c["s"].create_property("q", [1]))
+    add("Section.setitem:key-with-nul", lambda c: c["s"].__setitem__("k\x00x", [1]))
+    add("copy_section:name-with-nul", lambda c: c["f"].copy_section(c["s2"], name="c\x00p"),
+        lambda c: c["f"].copy_section(c["s2"], name="c"))
+    add("create_tag:copy-name-with-nul", lambda c: c["b2"].create_tag(copy_from=c["t"], name="c\x00p"),
+        lambda c: c["b2"].create_tag(copy_from=c["t"], name="c"))
+    add("RangeDimension.link_data_array:index-duck-typed-on-linked",
+        lambda c: c["rl"].link_data_array(c["dx"], SW.RS._Duck([-1])),
+        lambda c: c["rl"].link_data_array(c["dx"], [-1]))
+    add("append_range_dimension_using_self:index-duck-typed",
+        lambda c: c["dx"].append_range_dimension_using_self(SW.RS._Duck([-1])),
+        lambda c: c["dx"].append_range_dimension_using_self([-1]))
+    add("RangeDimension.link_data_array:index-no-common-type",
+        lambda c: c["rd"].link_data_array(c["da"], [2 ** 70, -1]),
+        lambda c: c["rd"].link_data_array(c["da"], [0, -1]))
     add("copy:name-taken", lambda c: c["b"].create_data_array(copy_from=c["da"]))
     add("copy:wrong-kind", lambda c: c["b"].create_data_array(copy_from=c["t"]))
     return C
@@ -1159,11 +1211,18 @@ def _introspected(c):
 
 def run_case(ctx, label, call, retry, tag="cat"):
     """one catalogue case on a freshly built file; returns (Failure | None, refused?)"""
+    for light in (True, False):
+        res = _run_case(ctx, label, call, retry, tag, light)
+        if res is not None:
+            return res
+    return None, False
+
+
+def _run_case(ctx, label, call, retry, tag, light):
     path = ctx.tmpfile("c12-oracle-%s.nix" % tag)
-    f = nixio.File.open(path, nixio.FileMode.Overwrite)
+    f, c = _scene_file(ctx, path)
     try:
-        c = _quiet(lambda: _build(f))
-        return _check_call(f, c, label, call, retry)
+        return _check_call(f, c, label, call, retry, light=light)
     finally:
         try:
             f.close()
@@ -1175,15 +1234,42 @@ def run_case(ctx, label, call, retry, tag="cat"):
             pass
 
 
-def _check_call(f, c, label, call, retry):
+def _file_bytes(f):
+    """digest of the flushed file's bytes (None when it cannot be taken)"""
+    try:
+        f._h5file.flush()
+        with open(f._h5file.filename, "rb") as fh:
+            return hashlib.sha1(fh.read()).digest()
+    except Exception:       # noqa
+        return None
+
+
+def _check_call(f, c, label, call, retry, light=False):
+    """`light`: no snapshot before the call - identical bytes of the flushed file after a refusal mean that nothing
+    was written (the common case); when the bytes differ the answer is None and the caller repeats the case on a
+    fresh file with the full snapshots"""
     if getattr(call, "setup", None) is not None:
         _quiet(lambda: call.setup(c))
-    before, wbefore = snapshot(f), walk(f)
+    bbytes = _file_bytes(f) if light else None
+    if light and bbytes is None:
+        return None
+    before, wbefore = (None, None) if light else (snapshot(f), walk(f))
     try:
         _quiet(lambda: call(c))
         return None, False          # accepted: not a refusal, the property says nothing
     except Exception as e:      # noqa
         err = type(e).__name__
+    if light:
+        if _file_bytes(f) != bbytes:
+            return None
+        if retry is not None:
+            try:
+                _quiet(lambda: retry(c))
+            except Exception as e:      # noqa
+                return Failure("after the refused call the same call with a valid argument is refused too",
+                               {"kind": "catalogue", "label": label}, {"first": err, "retry": "%s: %s" % (type(e).__name__, e)},
+                               "the valid call succeeds", label), True
+        return None, True
     after = snapshot(f)
     try:
         wafter = walk(f)
@@ -1212,6 +1298,7 @@ class _Scene:
 
     def __init__(self, ctx, long, tag="sweep"):
         self.path = ctx.tmpfile("c12-%s.nix" % tag)
+        self.ctx = ctx
         self.long = long
         self.f = None
         self.c = None
@@ -1219,8 +1306,7 @@ class _Scene:
 
     def build(self):
         self.close()
-        self.f = nixio.File.open(self.path, nixio.FileMode.Overwrite)
-        self.c = _quiet(lambda: _build(self.f, self.long))
+        self.f, self.c = _scene_file(self.ctx, self.path, self.long)
         self.builds += 1
         return self.c
 
@@ -1334,13 +1420,13 @@ def sweep(ctx, plan, deadline=None):
             scene = scenes[bool(long)]
             stats["targets"] += 1
             scene.build()
-            before, bbytes = snapshot(scene.f), scene.bytes()
             history = []
             found = 0
             # targets whose refusals come after a write that is rolled back change the file's bytes on every refusal:
             # for them the snapshot is taken right after an accepted call (a replay on a fresh scene costs six times
             # as much); the others learn it on the first such refusal
             eager = SW.is_rollback(tlabel)
+            before, bbytes = (snapshot(scene.f) if eager else None), scene.bytes()
             for slabel in spellings:
                 refused, err = _sweep_call(scene, tlabel, slabel)
                 if refused == NOT_APPLICABLE:
@@ -1450,18 +1536,22 @@ def _oracle(ctx, broken, hints):
         if fl is not None:
             failures.append(fl)
     # every introspected case on a file of its own (the closures are bound to the objects of that file)
-    n_intro, skipped, i = None, [], 0
+    n_intro, skipped, i, redo = None, [], 0, False
     while n_intro is None or i < n_intro:
         path = ctx.tmpfile("c12-oracle-intro.nix")
-        f1 = nixio.File.open(path, nixio.FileMode.Overwrite)
+        f1, c1 = _scene_file(ctx, path)
         try:
-            c1 = _quiet(lambda: _build(f1))
             intro, skipped = _introspected(c1)
             n_intro = len(intro)
             if i >= n_intro:
                 break
             label, call, retry = intro[i]
-            fl, ref = _check_call(f1, c1, label, call, retry)
+            res = _check_call(f1, c1, label, call, retry, light=not redo)
+            if res is None:
+                redo = True             # bytes changed: the same case again on a fresh file, with full snapshots
+                continue
+            redo = False
+            fl, ref = res
             evals += 1
             refused += ref
             if not ref:
